@@ -22,6 +22,10 @@ void lock_acquire(LockModel* l, bool shared); // yield point; blocks (in the mod
 void lock_release(LockModel* l, bool shared); // yield point
 void run_all(); // called by the main thread after creating the threads: waits until all parked, then schedules until all ended
 int current_tid();
+// small shared scratch counters for reference models that several threads update (kept out of TSan's sight,
+// like the rest of the scheduler: the threads are serialised, the counters are not part of the code under test)
+int shared_add(int idx, int delta);
+void shared_reset();
 
 struct Result
 {
